@@ -53,6 +53,12 @@ def call_spellings(q):
         out.append(("from_p_import_m_as", f"from {p} import {m} as al\n", f"al.{f}"))
     top = parts[0]
     out.append(("import_top_as", f"import {top} as tp\n", "tp." + ".".join(parts[1:])))
+    # the root name is bound some other way, or not at all: an unbound name resolves to itself (Props.C01.unbound_resolves_self), so the call is
+    # still the blacklisted qualified name (seeded change C01-m3 required the root module to be among the visited imports)
+    out.append(("unbound_root", "", q))
+    out.append(("bound_by_dunder_import", f"{top} = __import__('{top}')\n", q))
+    out.append(("bound_by_import_module", f"import importlib\n{top} = importlib.import_module('{top}')\n", q))
+    out.append(("bound_by_assignment", f"{top} = load_it()\n", q))
     return out
 
 
@@ -84,7 +90,8 @@ def import_spellings(q):
            ("importlib_kw", f"import importlib\nimportlib.import_module(name='{q}')\n"),
            ("import_multi", f"import os, {q}\n"),
            ("import_backslash", f"import os, \\\n    {q}\n"),
-           ("from_paren_multiline", f"from {q} import (\n    alpha,\n    beta,\n)\n")]
+           ("from_paren_multiline", f"from {q} import (\n    alpha,\n    beta,\n)\n"),
+           ("from_import_star", f"from {q} import *\n")]       # seeded change C01-m4: a wildcard special case returned before the tests ran
     if "." in q:
         p, m = q.rsplit(".", 1)
         out.append(("from_parent_import", f"from {p} import {m}\n"))
@@ -139,6 +146,11 @@ def run(res, ctx):
                         src = tmpl.format(pre=pre, call=call)
                         line = pre.count("\n") + 1 + off
                         cases.append((src, ("hit", first["id"], first.get("level", "MEDIUM"), line), dict(kind="call", rule=r["id"], q=q, spelling=label, context=cname, layout=lay)))
+            # a function that uses the module is defined ABOVE the module-level import statement (source order != execution order)
+            if "." in q:
+                mod = q.rsplit(".", 1)[0]
+                cases.append((f"def early_(v):\n    return {q}(v)\nimport {mod}\n", ("hit", first["id"], first.get("level", "MEDIUM"), 2),
+                              dict(kind="call", rule=r["id"], q=q, spelling="import_m_after_use", context="def-before-import")))
             # a method / nested def / nested class that merely has the same NAME as the bound name does not rebind it
             for label, pre, callee in call_spellings(q)[: (None if thorough else 3)]:
                 bound = callee.split(".")[0]
@@ -168,6 +180,8 @@ def run(res, ctx):
                 name = q + ".thing"
             if label == "from_paren_multiline":
                 name = q + ".alpha"
+            if label == "from_import_star":
+                name = q + ".*"
             if label in ("import_backslash", "from_paren_multiline", "from_parent_paren_later_line"):
                 line = 1          # the statement starts on its first physical line
             if label == "from_sub_import":
